@@ -197,6 +197,36 @@ fn run_once(t: &Tmpl, mag: i64) -> Run {
                 }
             }
         }
+        k if k.starts_with("load|") => {
+            // "load|<api>|<ext>": a file of the seed corpus with a header field at an extreme
+            let mut it = k.splitn(3, '|');
+            let _ = it.next();
+            let api = it.next().unwrap_or("buf").to_string();
+            let ext = it.next().unwrap_or("").to_string();
+            let bound = FILE_BOUND_PER_BYTE * (bytes.len() as u64 + 1);
+            let case = crate::files::LoadCase {
+                api,
+                ext,
+                bytes,
+                origin: String::new(),
+            };
+            let (out, m) = crate::files::run_load(
+                &case,
+                Budgets {
+                    work: bound + 1,
+                    depth: DEPTH_BOUND,
+                    block_ms: -1,
+                },
+            );
+            let _ = crate::mon::take_other_thread_panics();
+            fill(&mut r, &m);
+            if let Outcome::Panicked(p) = out {
+                match p.kind {
+                    PanicKind::WorkBudget { .. } => r.budget_hit = Some("work".into()),
+                    _ => r.panicked = true,
+                }
+            }
+        }
         k if k.starts_with("file:") => {
             let ext = &k[5..];
             let bound = FILE_BOUND_PER_BYTE * (bytes.len() as u64 + 1);
@@ -240,6 +270,8 @@ fn abs_bound(t: &Tmpl, n: usize) -> u64 {
 
 #[derive(Default)]
 pub struct C03 {
+    seeds: Vec<crate::files::Seed>,
+    n_files: u64,
     n_csi: u64,
     n_special: u64,
     specials: Vec<Tmpl>,
@@ -466,7 +498,9 @@ fn analyse(t: &Tmpl, runs: &[(i64, Run)]) -> Vec<Finding> {
                 detail: json!({"what": "work exceeds the absolute bound", "bound_ticks": bound, "ticks": r.ticks, "magnitude": mag, "input_len": r.n}),
             });
         }
-        let abound = ALLOC_BOUND + 4096 * r.n as u64 + macro_allowance(t, r.n) / (2 * t.w as u64 * t.h as u64 + 8) * (16 * t.w as u64 + 64);
+        // run-length formats legitimately expand a 4-byte record to 65535 cells of 16 bytes
+        let per_byte: u64 = if t.kind.starts_with("load|") || t.kind.starts_with("file:") { 262_144 } else { 4096 };
+        let abound = ALLOC_BOUND + per_byte * r.n as u64 + macro_allowance(t, r.n) / (2 * t.w as u64 * t.h as u64 + 8) * (16 * t.w as u64 + 64);
         if r.peak > abound {
             out.push(Finding {
                 key: format!("alloc|{fam}"),
@@ -530,8 +564,39 @@ impl C03 {
                 }
             };
             (self.csi_tmpl(idx), "csi-table")
-        } else {
+        } else if k < self.n_csi + self.n_special {
             (self.specials[((k - self.n_csi) % self.specials.len() as u64) as usize].clone(), "special")
+        } else {
+            // header-field extremes of every seed file: (seed, offset 0..64, width, value)
+            let full = self.seeds.len() as u64 * 64 * 3 * 6;
+            let i = k - self.n_csi - self.n_special;
+            let mut r = if self.n_files >= full { i } else { crate::rng::mix(ctx.seed ^ 0xF11E, i) % full };
+            let val: u32 = [0u32, 1, 0x7FFF, 0xFFFF, 0x7FFF_FFFF, 0xFFFF_FFFF][(r % 6) as usize];
+            r /= 6;
+            let width = [1usize, 2, 4][(r % 3) as usize];
+            r /= 3;
+            let off = (r % 64) as usize;
+            r /= 64;
+            let seed = &self.seeds[(r % self.seeds.len() as u64) as usize];
+            let mut bytes = seed.bytes.clone();
+            // offsets count from the start of the format's own header (IcyDraw: inside the chunks, see C02)
+            for (j, b) in val.to_le_bytes().iter().take(width).enumerate() {
+                if off + j < bytes.len() {
+                    bytes[off + j] = *b;
+                }
+            }
+            (
+                Tmpl {
+                    family: format!("file-header {} ({})", seed.ext, seed.api),
+                    kind: format!("load|{}|{}", seed.api, seed.ext),
+                    emu: String::new(),
+                    w: 80,
+                    h: 25,
+                    screen: 0,
+                    parts: vec![Part::L(bytes)],
+                },
+                "file-header",
+            )
         }
     }
 
@@ -568,14 +633,14 @@ impl C03 {
         ctx.fp_str(&format!("{}|{}|{}x{}|{:?}", t.family, t.screen, t.w, t.h, prof));
         if ctx.want_sample() && runs.iter().any(|(_, r)| r.ticks > 100) {
             ctx.sample(json!({"family": t.family, "kind": t.kind, "size": [t.w, t.h], "screen": t.screen,
-                "input_at_2^31-1": printable(&render(t, 2_147_483_647)),
+                "input_at_2^31-1": printable(&render(t, 2_147_483_647)).chars().take(300).collect::<String>(),
                 "ticks_by_magnitude": runs.iter().map(|(m, r)| json!([m, r.ticks])).collect::<Vec<_>>(),
                 "peak_alloc_by_magnitude": runs.iter().map(|(m, r)| json!([m, r.peak])).collect::<Vec<_>>()}));
         }
         for f in analyse(t, &runs) {
             let mut detail = f.detail;
             detail["family"] = json!(t.family);
-            detail["input"] = json!(printable(&render(t, 2_147_483_647)));
+            detail["input"] = json!(printable(&render(t, 2_147_483_647)).chars().take(400).collect::<String>());
             detail["size"] = json!([t.w, t.h]);
             detail["screen"] = json!(t.screen);
             ctx.violation(&f.key, detail, serde_json::to_value(t).unwrap());
@@ -601,7 +666,10 @@ impl Prop for C03 {
         let small = 3 * 3 * 63 * 8 * vec_count(3);
         self.n_csi = ctx.tier.pick(small + 60_000, self.csi_full);
         self.n_special = self.specials.len() as u64;
-        self.n_csi + self.n_special
+        self.seeds = crate::files::build_corpus();
+        let full = self.seeds.len() as u64 * 64 * 3 * 6;
+        self.n_files = ctx.tier.pick(20_000.min(full), full);
+        self.n_csi + self.n_special + self.n_files
     }
     fn run_case(&mut self, ctx: &mut Ctx, k: u64) {
         let (t, class) = self.tmpl_for(ctx, k);
